@@ -170,8 +170,24 @@ def _pre(inp, objs):
 
 
 def run(inp):
-    kind = inp[0]
+    """the operation itself is [_run]; around it: str has no in-place operations, so `g = f; g += x` and `g *= n`
+    must leave f alone exactly like `f + x` (half of the add / mul cases use the augmented form on a second
+    name), and no operation may change its left operand -- if the operand's runs differ afterwards the
+    outcome is reported as an OtherError, which neither the model nor the specification accepts"""
     f = canon.build_fs(inp[1])
+    before = canon.canon_fs(f)
+    out = _run(inp, f)
+    if canon.canon_fs(f) != before:
+        return ["raise", "OtherError"]
+    return out
+
+
+def _aug(inp):
+    return (len(inp[1]) + sum(len(s) for s, _ in inp[1])) % 3 == 0
+
+
+def _run(inp, f):
+    kind = inp[0]
     if kind == "get":
         _pre(inp, [f])
         ix = inp[2]
@@ -183,6 +199,12 @@ def run(inp):
     if kind == "add":
         x = build_operand(inp[2])
         _pre(inp, [f, x])
+        if _aug(inp):
+            def iadd():
+                g = f
+                g += x
+                return g
+            return canon.outcome(iadd, observe)
         return canon.outcome(lambda: f + x, observe)
     if kind == "radd":
         x = build_operand(inp[2])
@@ -194,6 +216,12 @@ def run(inp):
         return canon.outcome(lambda: f.__radd__(x), observe)
     if kind == "mul":
         _pre(inp, [f])
+        if _aug(inp):
+            def imul():
+                g = f
+                g *= inp[2]
+                return g
+            return canon.outcome(imul, observe)
         return canon.outcome(lambda: f * inp[2], observe)
     if kind == "join":
         items = [build_operand(o) for o in inp[2]]
